@@ -710,7 +710,8 @@ func planFor(r *rand.Rand, c streamCase) streamPlan {
 	if c.Idx%7 == 6 {
 		p.Transport = "grpc"
 		p.Poison = false
-		p.Compressor = []string{"", "gzip", "snappy", "zstd"}[(c.Idx/7)%4]
+		k := c.Idx / 7
+		p.Compressor = []string{"", "gzip", "snappy", "zstd"}[(k+k/8)%4] // decorrelated from the variant (idx%8)
 	}
 	prof := []string{"small", "medium", "api", "many", "large", "one", "empty", "small", "api", "medium", "api", "medium"}
 	p.Profile = prof[r.Intn(len(prof))]
